@@ -24,11 +24,12 @@ type Case struct {
 	N       int    `json:"n"`      // bytes written by the closing side before it closes
 	Pos     string `json:"pos"`    // consumed | paused | race
 	Other   string `json:"other"`  // none | idle | busy
+	Quiet   int    `json:"quiet"`  // fake seconds the established logical connection stays idle before the write
 	UDP     bool   `json:"udp,omitempty"`
 }
 
 func (c Case) String() string {
-	return fmt.Sprintf("%s/%s closer=%s n=%d pos=%s other=%s", c.Carrier, c.Sec, c.Closer, c.N, c.Pos, c.Other)
+	return fmt.Sprintf("%s/%s closer=%s n=%d pos=%s other=%s quiet=%ds", c.Carrier, c.Sec, c.Closer, c.N, c.Pos, c.Other, c.Quiet)
 }
 
 func sizeClass(n int) string {
@@ -94,6 +95,10 @@ func execute(t *testing.T, c Case) (kind, detail string) {
 		closer, other := app, tg
 		if c.Closer == "target" {
 			closer, other = tg, app
+		}
+		if c.Quiet > 0 {
+			// a long-lived, idle logical connection: time passes before anything is written
+			bubble.Advance(time.Duration(c.Quiet) * time.Second)
 		}
 		if c.Other == "busy" {
 			otherApp.StartWrite(world.Payload(0x66, 0, 30000))
@@ -224,6 +229,15 @@ func cases(thorough bool) []Case {
 							continue
 						}
 						out = append(out, Case{Carrier: x.carrier, Sec: x.sec, Closer: closer, N: n, Pos: pos, Other: other})
+						quiets := []int{20}
+						if thorough {
+							quiets = []int{20, 45, 300}
+						}
+						for _, q := range quiets {
+							if other == "none" || thorough {
+								out = append(out, Case{Carrier: x.carrier, Sec: x.sec, Closer: closer, N: n, Pos: pos, Other: other, Quiet: q})
+							}
+						}
 					}
 				}
 			}
@@ -235,12 +249,16 @@ func cases(thorough bool) []Case {
 func record(r *mc.Run, c Case, kind, detail string) {
 	r.Eval(1)
 	r.Transition(4)
-	r.State(mc.Hash(c.Carrier, c.Sec, c.Closer, sizeClass(c.N), c.Pos, c.Other, kind))
+	r.State(mc.Hash(c.Carrier, c.Sec, c.Closer, sizeClass(c.N), c.Pos, c.Other, c.Quiet, kind))
 	if c.N > 0 || c.Other != "none" {
 		r.Nontrivial(mc.Hash(c.String()))
 	}
 	if kind != "" {
-		r.Fail(fmt.Sprintf("%s|%s/%s|closer=%s|%s|%s", kind, c.Carrier, c.Sec, c.Closer, c.Pos, sizeClass(c.N)), fmt.Sprintf("%s: %s", c, detail), c.N/1000+len(c.Other), c)
+		q := "fresh"
+		if c.Quiet > 0 {
+			q = "aged"
+		}
+		r.Fail(fmt.Sprintf("%s|%s/%s|closer=%s|%s|%s|%s", kind, c.Carrier, c.Sec, c.Closer, c.Pos, sizeClass(c.N), q), fmt.Sprintf("%s: %s", c, detail), c.N/1000+len(c.Other), c)
 	}
 }
 
